@@ -11,6 +11,9 @@ Fixpoint hx (s : string) : string :=
   | _ => EmptyString
   end.
 
+(* an argument of n bytes (case files do not spell out very long strings) *)
+Definition big (n : N) : string := str_of (repeat (ch 120) (N.to_nat n)).
+
 Record obs := {
   o_ran : option bool;                 (* Exec's first result; None for the other entry points *)
   o_err : err;                         (* ENil | EFatal c (the error has ExitStatus(), c = mg.ExitStatus) | EOther *)
@@ -40,9 +43,13 @@ Record case := {
   c_obs : obs
 }.
 
+(* the kernel refuses an argument vector with a string longer than MAX_ARG_STRLEN = 131072 bytes incl. NUL (E2BIG) *)
+Definition arg_too_long (a : string) : bool := N.leb 131072 (N.of_nat (S (String.length a))).
+
 Definition world (c : case) (argv envp : list string) : child_result :=
   match argv with
-  | cmd :: _ => if mem_str cmd (c_startable c) then c_child c else NotStarted
+  | cmd :: _ => if existsb arg_too_long argv then NotStarted
+                else if mem_str cmd (c_startable c) then c_child c else NotStarted
   | [] => NotStarted
   end.
 
